@@ -90,6 +90,9 @@ type ExtendedOTSendResult struct {
 func ExtendedOTSend(ctxHash *hash.Hash, setup *CorreOTSendSetup, batchSize int, msg *ExtendedOTReceiveMessage) (*ExtendedOTSendResult, error) {
 	inflatedBatchSize := batchSize + params.OTParam + params.StatParam
 
+	if msg == nil {
+		return nil, fmt.Errorf("ExtendedOTSend: missing message")
+	}
 	correResult, err := CorreOTSend(ctxHash, setup, inflatedBatchSize, msg.CorreMsg)
 	if err != nil {
 		return nil, err
